@@ -17,6 +17,7 @@ import (
 // ---- server side: a minimal backend -------------------------------------------------
 
 type vh13FS struct {
+	xattr    []byte
 	fsize    int64
 	names    []string
 	honour   bool  // Readdir honours count (otherwise returns every entry from offset on)
@@ -70,6 +71,8 @@ func (f *vh13File) GetAttr(req AttrMask) (QID, AttrMask, Attr, error) {
 	}
 	return f.qid(), AttrMask{Mode: true, Size: true}, Attr{Mode: m, Size: uint64(f.fs.fsize)}, nil
 }
+
+func (f *vh13File) GetXattr(name string) ([]byte, error) { return f.fs.xattr, nil }
 
 func (f *vh13File) Open(mode OpenFlags) (QID, uint32, error) { return f.qid(), 0, nil }
 func (f *vh13File) Close() error                             { return nil }
@@ -240,6 +243,51 @@ func vh13Server(o *vhOut, thorough bool) {
 				}
 			}
 			v.close()
+		}
+		// Tread on an xattr fid: values around msize-11, counts up to the value length and beyond
+		if eff <= 1<<20 || thorough {
+			vlens := []int64{0, 5, int64(eff) - 12, int64(eff) - 11, int64(eff) - 10, int64(eff), int64(eff) + 50, 2 * int64(eff)}
+			if !thorough {
+				vlens = []int64{0, int64(eff) - 11, int64(eff), int64(eff) + 50}
+			}
+			for _, vl := range vlens {
+				if vl < 0 {
+					continue
+				}
+				fs := &vh13FS{xattr: make([]byte, vl)}
+				v, ann, ok := vh13Session(fs, req)
+				if !ok {
+					v.close()
+					continue
+				}
+				w := append(vhLE32(1), vhLE32(3)...)
+				w = vhPutString(w, "v")
+				if typ, _, _, err := v.rpc(byte(msgTxattrwalk), w); err != nil || typ != byte(msgRxattrwalk) {
+					id++
+					o.Emit(map[string]interface{}{"kind": "ssetup", "id": id, "req": req, "ann": ann, "ok": false})
+					v.close()
+					continue
+				}
+				counts := append(vh13Counts(eff), uint32(vl), uint32(vl)+1, uint32(vl)-7)
+				for _, cnt := range counts {
+					for _, off := range []uint64{0, 7} {
+						body := append(vhLE32(3), vhLE64(off)...)
+						body = append(body, vhLE32(cnt)...)
+						typ, rb, size, err := v.rpc(byte(msgTread), body)
+						id++
+						rec := map[string]interface{}{"kind": "sxread", "id": id, "req": req, "ann": ann, "count": cnt, "off": off, "vlen": vl,
+							"rtype": int(typ), "rsize": size, "rcount": -1, "err": err != nil}
+						if err == nil && typ == byte(msgRread) && len(rb) >= 4 {
+							rec["rcount"] = binary.LittleEndian.Uint32(rb)
+						}
+						o.Emit(rec)
+						if err != nil {
+							break
+						}
+					}
+				}
+				v.close()
+			}
 		}
 		// directories: entry names of mixed lengths; total size on both sides of the limit
 		for _, honour := range []bool{false, true} {
@@ -447,7 +495,9 @@ func TestVerifC13(t *testing.T) {
 	id := 100000
 	reqs := []uint32{154, 1024, 8192, 65536}
 	for _, req := range reqs {
-		anns := []uint32{req, req - 1, 0, 153, 154, 155, 665, 666, 1200, req + 100, req / 2, 1<<32 - 1}
+		oldPay := roundDown(req-153, 512)
+		anns := []uint32{req, req - 1, 0, 153, 154, 155, 665, 666, 1200, req + 100, req / 2, 1<<32 - 1,
+			oldPay, oldPay + 11, oldPay + 22, oldPay + 23, 512 + 11, 512 + 22, 1024 + 15, 523, 524}
 		for _, ann := range anns {
 			m := req
 			if ann < req {
